@@ -28,6 +28,11 @@ def run_main(args):
     so, se = sys.stdout, sys.stderr
     sys.stdout, sys.stderr = out, err
     rc, exc, key = None, None, None
+    import logging
+    # main() configures logging with logging.basicConfig(stream=Printer(sys.stderr)), which is a no-op once the root logger
+    # has a handler; a real command line is one process per invocation, so give every invocation a fresh root logger
+    for h in list(logging.root.handlers):
+        logging.root.removeHandler(h)
     try:
         try:
             rc = gmain.main(['graphtage'] + [str(a) for a in args])
@@ -44,6 +49,9 @@ def run_main(args):
             key = f"{type(e).__name__}@{frame}"
     finally:
         sys.stdout, sys.stderr = so, se
+        for h in list(logging.root.handlers):
+            logging.root.removeHandler(h)
+        logging.root.setLevel(logging.WARNING)
     return Result(rc, out.getvalue(), err.getvalue(), exc, key)
 
 
